@@ -307,11 +307,19 @@ def history_case(ctx, LP, rng, nops):
         mo = "ok " + " ".join(cur)
     regs = [mk(LPoly, c, dm) for c, dm in regs_spec]
     status, fail_at = "ok", None
+    # `r = r + s` may be spelled `r += s` (likewise -=, *=): Python falls back to the binary operator when the class has no
+    # in-place method and uses the in-place method when it has one; either way only the NAME r may change its meaning
+    import operator
+    aug = [i for i, o in enumerate(ops) if o.split(":")[0] in ("mul", "add", "sub", "smul") and o.split(":")[1] == o.split(":")[2] and rng.random() < 0.6]
     for i, o in enumerate(ops):
         t = o.split(":")
         try:
             with core.quiet():
-                if t[0] == "mul":
+                if i in aug:
+                    ctx.count("history-augmented-assignment:" + t[0])
+                    f_ = {"mul": operator.imul, "add": operator.iadd, "sub": operator.isub, "smul": operator.imul}[t[0]]
+                    regs[int(t[1])] = f_(regs[int(t[1])], float(pr(t[3])) if t[0] == "smul" else regs[int(t[3])])
+                elif t[0] == "mul":
                     regs[int(t[1])] = regs[int(t[2])] * regs[int(t[3])]
                 elif t[0] == "add":
                     regs[int(t[1])] = regs[int(t[2])] + regs[int(t[3])]
@@ -339,7 +347,7 @@ def history_case(ctx, LP, rng, nops):
     ctx.count("history-ops", len(ops))
     ctx.case(["hist", regs_spec, ops], True, {"history": ops[:8], "registers": regs_spec, "model": mo[:100]})
     replay = {"op": "history", "registers": [{"coefs": c, "dmin": dm} for c, dm in regs_spec], "ops": ops,
-              "python_status": status, "python_failed_at": fail_at, "model": mo[:800]}
+              "python_status": status, "python_failed_at": fail_at, "model": mo[:800], "augmented_assignment_at": aug}
     if mo.startswith("outside@"):
         ctx.count("history-outside-domain")       # window of the wrong parity / parity carried by an unflagged zero: left open
         return
